@@ -8,5 +8,7 @@ def main():
     print("setup: eqlog compiler built")
     b, infos = modelgen.build_models("k", modelgen.load_corpus("k"))
     print("setup: models harness built,", sum(1 for i in infos if i["ok"]), "theories")
+    bins, infos = modelgen.build_models_sharded("s", modelgen.load_corpus("s"))
+    print("setup: sharded models harness (corpus S) built,", sum(1 for i in infos if i["ok"]), "theories")
     c12.build_tools()
     print("setup: injector and stand-in rustc built")
